@@ -153,7 +153,7 @@ type caseState struct {
 	unkOth  atomic.Int64
 	misrte  atomic.Int64
 	closing chan struct{}
-	bg      sync.WaitGroup
+	bg      atomic.Int32 // background senders (duplicates, unsolicited) still running; a plain counter: late handler runs may add while afterQuiescence waits
 }
 
 var (
@@ -436,7 +436,7 @@ func handle(node int, w p2p.ResponseWriter, req *p2p.Request) {
 	if n > 0 {
 		cs.bg.Add(1)
 		go func() {
-			defer cs.bg.Done()
+			defer cs.bg.Add(-1)
 			if cs.w.dupsLate {
 				select {
 				case <-c.done:
@@ -543,9 +543,24 @@ func sanitize(w *workload) {
 	}
 	kLost, kTO, kCancel, kDup := isKnown(sigLost), isKnown(sigDeadTimeout), isKnown(sigDeadCancel), isKnown(sigDeadDup)
 	var excluded int64
+	tUs := w.TimeoutMs * 1000
 	for ci := range w.Calls {
 		for ai := range w.Calls[ci].Att {
 			a := &w.Calls[ci].Att[ai]
+			// Known deadlock after timeout: a reply landing within a few ms of the timer parks onResponse for good even
+			// without any steering (seen in roughly every third generated case). Latencies are pushed out of a
+			// +-10 ms band around the timeout so that most cases run to the end; what still wedges is excused above.
+			if kTO && a.LatUs > tUs-10000 && a.LatUs < tUs+10000 {
+				if a.LatUs < tUs {
+					a.LatUs = tUs - 10000
+					if a.LatUs < 0 {
+						a.LatUs = 0
+					}
+				} else {
+					a.LatUs = tUs + 10000
+				}
+				excluded++
+			}
 			switch a.Dir {
 			case dirHoldEarly, dirSleepSend:
 				if kLost {
@@ -581,13 +596,16 @@ func runCase(w *workload) (*verdict, error) {
 	sanitize(w)
 	var cl *cluster
 	var err error
-	for try := 0; try < 3; try++ {
+	for try := 0; try < 4; try++ {
 		if cl, err = currentCluster(); err == nil {
 			break
 		}
 		dropCluster()
 	}
 	if err != nil {
+		// Loopback hosts could not be started/connected (seen only with the machine oversubscribed ~20x: TLS dials
+		// time out). Not a statement about the engine: recorded as inconclusive, the case is skipped.
+		evid.R.Inconclusive("infrastructure: cannot start loopback cluster, case skipped: %v", err)
 		return nil, err
 	}
 	T := time.Duration(w.TimeoutMs) * time.Millisecond
@@ -651,7 +669,7 @@ func runCase(w *workload) (*verdict, error) {
 	for i, u := range w.Unsol {
 		cs.bg.Add(1)
 		go func(i int, u unsolPlan) {
-			defer cs.bg.Done()
+			defer cs.bg.Add(-1)
 			<-start
 			sleepUs(u.DelayUs)
 			cs.raw(u.From, u.To, fmt.Sprintf("unsolicited-%d-%d", cs.no, i), "tok|unsolicited|x", false)
@@ -696,6 +714,13 @@ wait:
 	}
 	v.wall = time.Since(t0)
 	if os.Getenv("VERIF_C17_TRACE") != "" {
+		for _, x := range v.viol {
+			d := x.Detail
+			if len(d) > 1200 {
+				d = d[:1200]
+			}
+			fmt.Fprintf(os.Stderr, "  c17 viol [%s] %s\n", x.Sig, d)
+		}
 		fmt.Fprintf(os.Stderr, "%s c17 case %d: calls=%d workers=%d T=%dms wall=%v viol=%d wedged=%v incon=%d cluster=%d\n", time.Now().Format("15:04:05.000"), cs.no, len(w.Calls), w.Workers, w.TimeoutMs, v.wall.Round(time.Millisecond), len(v.viol), v.wedged, len(v.incon), cl.serial)
 	}
 	return v, nil
@@ -747,11 +772,9 @@ func (cs *caseState) afterQuiescence(v *verdict) {
 	for cs.inHand.Load() > 0 && time.Now().Before(deadline) {
 		time.Sleep(2 * time.Millisecond)
 	}
-	bgDone := make(chan struct{})
-	go func() { cs.bg.Wait(); close(bgDone) }()
-	select {
-	case <-bgDone:
-	case <-time.After(8 * time.Second):
+	deadline = time.Now().Add(8 * time.Second)
+	for cs.bg.Load() > 0 && time.Now().Before(deadline) {
+		time.Sleep(2 * time.Millisecond)
 	}
 	// Every sendRequestMessage has returned, so every pending entry must be gone - exactly, no timing involved.
 	for i := 0; i < cs.w.NConn; i++ {
@@ -821,7 +844,10 @@ func (cs *caseState) evaluate(v *verdict, finished bool) {
 			if a.lostEarly {
 				v.add(sigLost, "reply dropped as 'unknown request ID' although the requester had not even started to wait (handled between send and registration): %s", c.describe())
 			}
-			if a.foundEarly && a.timeoutFired {
+			// The reply was found before the requester started to wait, nothing of ours delayed its delivery, and the
+			// attempt timed out all the same: suspicious, but only "found", not "delivered", is known to precede the
+			// wait (the schedule point sits before the hand-over), so it needs confirmation (confirmSuspect).
+			if a.foundEarly && a.timeoutFired && (a.plan.Dir == dirHoldEarly || a.plan.Dir == dirNone || a.plan.Dir == dirSleepSend) {
 				v.suspects++
 			}
 		}
@@ -1111,7 +1137,7 @@ func TestWorkload(t *testing.T) {
 		w := drawWorkload(rt)
 		v, err := runCase(w)
 		if err != nil {
-			rt.Fatalf("infrastructure: cannot start loopback cluster: %v", err)
+			return // infrastructure, recorded as inconclusive
 		}
 		record(rt, "workload", w, v)
 		if v.suspects > 0 && !isKnown(sigLost) {
@@ -1168,7 +1194,7 @@ func runDirected(t *testing.T, name string, mk func() *workload, reps int) {
 		w := mk()
 		v, err := runCase(w)
 		if err != nil {
-			t.Fatalf("infrastructure: cannot start loopback cluster: %v", err)
+			return // infrastructure, recorded as inconclusive
 		}
 		if record(t, "directed:"+name, w, v) {
 			return // known finding reproduced; once is enough (each reproduction costs a wedged cluster)
@@ -1187,7 +1213,7 @@ func TestRegressReplyBeforeRegistration(t *testing.T) {
 		w := directedEarly(250)
 		v, err := runCase(w)
 		if err != nil {
-			t.Fatalf("infrastructure: %v", err)
+			return // infrastructure, recorded as inconclusive
 		}
 		if record(t, "directed:reply-before-wait", w, v) {
 			return
